@@ -346,7 +346,6 @@ theorem decTy_encodable (o : Opts) (hd : DecSideOK o) : ∀ (f : Nat) (bs : Byte
           split at h
           · rename_i t' f' ht
             split at h; · simp at h
-            split at h; · simp at h
             simp at h; obtain ⟨rfl, rfl⟩ := h
             have : n ≤ limBinaryEnc := by simp [limBinaryEnc]; omega
             simp [Ty.encodable, decTy_encodable o hd f _ _ _ ht, this]
@@ -381,6 +380,7 @@ theorem getDecoder_inv (o : Opts) (hd : DecSideOK o) (dt : Bool) (bs : Bytes) (t
         split at h; · simp at h
         split at h
         · rename_i t' f' ht
+          split at h; · simp at h
           simp at h; obtain ⟨rfl, rfl, _⟩ := h
           exact ⟨decTy_encodable o hd _ _ _ _ ht, by simp; omega⟩
         · simp at h
@@ -403,7 +403,10 @@ theorem getDecoder_nil_inv (o : Opts) (dt : Bool) (bs : Bytes) (r : Bytes) (dt' 
     · split at h
       · split at h; · simp at h
         split at h; · simp at h
-        split at h <;> simp at h
+        split at h
+        · split at h <;> simp at h
+        · simp at h
+        · simp at h
       · split at h
         · simp at h; obtain ⟨rfl, _⟩ := h; simp
         · split at h <;> simp at h
